@@ -610,6 +610,7 @@ package xpath
 //@   props C15 C13 C09 C04 C05
 //@   conforms functionQuery.Func
 //@   captures elemsNonNil(args)
+//@   loop 0 invariant[round-appends-arg@C09] called(Evaluate, 0) ==> buf(b) == at(0, buf(b)) + ite(is(retval(Evaluate, 0), string), as(retval(Evaluate, 0), string), ite(is(retval(Evaluate, 0), query) && retval(Select, 0) != nil, retval(Value, 0), ""))     // a round appends exactly the string value of its argument: the string itself, or the string-value of the first node of a node-set (nothing for an empty one)
 //@   theory stream for C13 C09
 //@   uses one-document
 //@   loop * invariant[cursor@C13] cur(t) == old(cur(t)) && pos(cur(t)) == old(pos(cur(t)))
